@@ -101,7 +101,7 @@ def _run(ctx, chk, prog, tag):
             detail = "hidden mutable state: written by %s; chain: %s" % (
                 libw[:4], " -> ".join("%s@%s" % (fn, ins.loc()) for fn, ins, _ in wit))
         chk.ob("C17.inventory", "global %s" % name, ok, g["unit"], key="global:" + name, detail=detail)
-    chk.floor("C17.inventory", "globals", ninv, 10)
+    chk.floor("C17.inventory", "globals", ninv, 7 if tag else 10)
 
     nfun = 0
     for f in prog.lib_funcs():
@@ -131,6 +131,10 @@ def _run(ctx, chk, prog, tag):
         else:
             raise AnalysisBroken("external symbol %s not classified for reentrancy" % sym)
     chk.floor("C17.reentrant-libc", "external symbols", len(seen), 5)
+    chk.rule("C17.no-access-after-free", "on every path of every library function (unit-internal helpers and the stack module inlined) no load or "
+             "store addresses a block after it was handed to the installed free, and no block is handed to it twice (a released block may already belong to another thread)")
+    from props.c06 import check_no_access_after_free
+    check_no_access_after_free(chk, "C17.no-access-after-free", prog, eff)
 
     chk.ob("C17.control", "function-static scratch (verif_ctl_static_cache.last)", "verif_ctl_static_cache.last" in ctl_hits,
            "controls/ctl_state.c")
